@@ -119,6 +119,13 @@ def targeted(rng, cfg, tier_thorough):
     out.append(attack_scenario(rng, cfg, [(True, "invoke:raises", d.base_invoke(rng, m, (n,), serializer="serpent"), "read")
                                           for m, n in (("raise_", "BadStrProto"), ("cb", "BadStrOnly"), ("raise_", "BadStrTimeout"), ("cb", "BadStrProto"))]
                                + [(False, "connect:validator-raises", d.base_connect(rng, handshake={"raise": "BadStrOnly"}, serializer="serpent"), "read")]))
+    # a correlation id of the attacker's choosing, in a handshake, a call, a ping and an undecodable call
+    def corr(m):
+        return d.set_field(d.set_field(m, "flags", d.get_field(m, "flags") | 64), "corr", b"HOSTILE-CORR-ID!")
+    out.append(attack_scenario(rng, cfg, [(False, "corr-id", corr(d.base_connect(rng, serializer="serpent")), "read"),
+                                          (True, "corr-id", corr(d.base_invoke(rng, serializer="serpent")), "read"),
+                                          (True, "corr-id", corr(d.rd.ping_msg(seq=2)), "read"),
+                                          (True, "corr-id", corr(d.base_invoke(rng, serializer="serpent", payload=b"\xff\xfe garbage")), "read")]))
     for phase in ("pre", "post"):
         base = d.base_connect(rng, serializer="serpent") if phase == "pre" else d.base_invoke(rng, serializer="serpent")
         hs = phase == "post"
